@@ -55,6 +55,7 @@ func findCallTo(f *ssa.Function, pred func(*ssa.Function) bool) ssa.Instruction 
 }
 
 func c20r1(c *core.Ctx) {
+	configLoadPolarity(c)
 	p := c.P
 	nt := p.Func("", "NewIPTransport")
 	if nt == nil {
@@ -266,6 +267,7 @@ func c20r2(c *core.Ctx) {
 }
 
 func c20r3(c *core.Ctx) {
+	contentHashCovers(c)
 	p := c.P
 	f := p.Func("accessory", "(*Container).ContentHash")
 	if f == nil {
@@ -588,7 +590,28 @@ func c20r5(c *core.Ctx) {
 			usesUnicode = true
 		}
 	})
-	c.Check(lo && hi && !usesUnicode, "ascii-digits@"+fname(f), f.Pos(), "every byte is compared with '0' and '9'", "digits are not tested as bytes in '0'..'9' (unicode digit classes accept non-ASCII digits)")
+	// equivalent test: strconv.ParseUint(pin, 10, n) succeeds exactly for non-empty strings of ASCII digits (no sign, unlike Atoi / ParseInt)
+	byParse := false
+	core.Instrs(f, func(i ssa.Instruction) {
+		call, ok := i.(*ssa.Call)
+		if !ok || !core.IsCall(call, "strconv.ParseUint") {
+			return
+		}
+		if base, isK := core.ConstInt(core.Args(call)[1]); !isK || base != 10 {
+			return
+		}
+		parsed := errNilFact(1, func(ci ssa.Instruction) bool { return ci == ssa.Instruction(call) })
+		all := len(succ) > 0
+		for _, r := range succ {
+			if !core.Dominated(r, parsed) {
+				all = false
+			}
+		}
+		if all {
+			byParse = true
+		}
+	})
+	c.Check((lo && hi || byParse) && !usesUnicode, "ascii-digits@"+fname(f), f.Pos(), "every byte is compared with '0' and '9'", "digits are not tested as bytes in '0'..'9' (unicode digit classes accept non-ASCII digits)")
 	// the trivial-code table
 	want := []string{"00000000", "11111111", "22222222", "33333333", "44444444", "55555555", "66666666", "77777777", "88888888", "99999999", "12345678", "87654321"}
 	sort.Strings(want)
